@@ -99,7 +99,7 @@ def main(names):
         if os.path.exists(meta_path):
             prop = json.load(open(meta_path))["property"]
         else:
-            prop = "C10" if name[0] in "acegik" else "C16"
+            prop = "C10" if name[0] in "acegikm" else "C16"
         todo.append(("seeded", name, prop, patch_path))
     ok = True
     for kind, name, prop, payload in todo:
